@@ -415,11 +415,23 @@ def flow(body):
 
 
 def value_chains(body, local, limit=40):
-    """def-use chains origin -> ... -> local as lists of def points (origin first).  Origins are non-view calls or arguments."""
+    """def-use chains origin -> ... -> local as lists of def points (origin first).  Origins are non-view calls or arguments.
+    Aggregates are followed field-sensitively: a value read back out of `(x as Some).0.e` is traced into the operand that was
+    stored as field `e`, not into its sibling fields (a struct returned by a helper may carry a tested and an untested pointer)."""
     fl = flow(body)
     chains = []
 
-    def rec(l, suffix, visiting):
+    def proj_fields(p):
+        """field names of a place projection, outermost access first; None if the access goes through a pointer"""
+        out = []
+        for e in p["proj"]:
+            if e == "deref":
+                return None
+            if isinstance(e, dict) and "field" in e:
+                out.append(str(e.get("name", e["field"])))
+        return out
+
+    def rec(l, suffix, visiting, need):
         if len(chains) >= limit:
             return
         srcs = fl.sources(l)
@@ -427,14 +439,28 @@ def value_chains(body, local, limit=40):
             chains.append(suffix)
             return
         for kind, data, pt in srcs:
+            nneed = need
             if kind == "copy":
                 nxt = [data]
             elif kind in ("ref", "field", "discr"):
                 nxt = [data["local"]]
+                pf = proj_fields(data) if kind != "discr" else []
+                nneed = (pf + need) if (pf is not None and need is not None) else None
             elif kind == "view":
                 nxt = [data[1]]
+                nneed = None
             elif kind == "agg":
-                nxt = [op_root(o) for o in data["rv"]["ops"] if op_root(o) is not None]
+                ops = data["rv"]["ops"]
+                names = [str(x) for x in data["rv"]["agg"].get("fields", [])] or [str(i) for i in range(len(ops))]
+                nxt = None
+                if need:
+                    if need[0] in names and names.index(need[0]) < len(ops):
+                        o = ops[names.index(need[0])]
+                        nxt = [op_root(o)] if op_root(o) is not None else []
+                        nneed = need[1:]
+                if nxt is None:
+                    nxt = [op_root(o) for o in ops if op_root(o) is not None]
+                    nneed = None
             elif kind == "arg":
                 chains.append([("arg", data)] + suffix)
                 continue
@@ -446,9 +472,9 @@ def value_chains(body, local, limit=40):
             for n in nxt:
                 if (n, pt) in visiting:
                     continue
-                rec(n, [pt] + suffix, visiting | {(n, pt)})
+                rec(n, [pt] + suffix, visiting | {(n, pt)}, nneed)
 
-    rec(local, [], frozenset())
+    rec(local, [], frozenset(), [])
     return chains
 
 
@@ -691,14 +717,21 @@ def cond_of(body, b):
     neg = False
     fl = flow(body)
     seen = set()
+    at = body.term_point(b)
     while True:
         if l in seen:
             return dict(kind="bool", local=l, true=tb if not neg else fb, false=fb if not neg else tb)
         seen.add(l)
         srcs = fl.sources(l)
+        if len(srcs) > 1:
+            # several definitions: only those that reach this use count (after jump threading the constant ones no longer do)
+            live = {d[0] for d in fl.reaching_defs(l, at)}
+            srcs = [x for x in srcs if x[2] in live]
         if len(srcs) != 1:
             return dict(kind="bool", local=l, true=tb if not neg else fb, false=fb if not neg else tb)
         kind, data, pt = srcs[0]
+        if pt is not None:
+            at = pt
         if kind == "copy":
             l = data
             continue
@@ -726,6 +759,8 @@ def cond_of(body, b):
             return dict(kind="call", call=c, true=T, false=F)
         # unary not
         for p2, k2, d2 in body.defs.get(l, []):
+            if pt is not None and p2 != pt:
+                continue
             if k2 == "assign" and "un" in d2["rv"] and d2["rv"]["un"] == "Not":
                 nl = op_local(d2["rv"]["a"])
                 if nl is not None:
@@ -738,6 +773,8 @@ def cond_of(body, b):
                 pass
             # comparison rvalue
             for p2, k2, d2 in body.defs.get(l, []):
+                if pt is not None and p2 != pt:
+                    continue
                 if k2 == "assign" and "bin" in d2["rv"]:
                     return dict(kind="cmp", op=d2["rv"]["bin"], a=d2["rv"]["a"], b=d2["rv"]["b"], true=T, false=F, point=p2)
             return dict(kind="bool", local=l, true=T, false=F)
